@@ -64,7 +64,7 @@ class Closure:
 
 class SeqIter:
     """Iterator over the symbolic sequence `seq` (a Val term, seq_len/seq_at) starting at `pos` (z3 Int)."""
-    __slots__ = ("seq", "pos", "elem_in_D", "elem_fn", "len_term")
+    __slots__ = ("seq", "pos", "elem_in_D", "elem_fn", "len_term", "clamp")
 
     def __init__(self, seq, pos=None, elem_in_D=True, elem_fn=None):
         self.seq = seq
@@ -72,6 +72,7 @@ class SeqIter:
         self.elem_in_D = elem_in_D
         self.elem_fn = elem_fn      # optional: (st, index z3 Int) -> V   (for zip / enumerate / items views)
         self.len_term = None
+        self.clamp = False
 
 
 class HList:
